@@ -143,6 +143,11 @@ pub trait SMBusMCTPRequestResponse {
 
         let body = MCTPMessageBody::new(&header, *message_header, message_data, None);
 
+        // The SMBus byte count (transport header + message + PEC) is one byte
+        if body.len() + 5 > 255 {
+            return Err(());
+        }
+
         let packet = MCTPSMBusPacket::new(&mut smbus_header, &base_header, &body);
 
         Ok(packet.to_raw_bytes(buf))
@@ -163,6 +168,11 @@ pub trait SMBusMCTPRequestResponse {
             MCTPMessageBodyHeader::new(false, MessageType::VendorDefinedPCI);
 
         let body = MCTPMessageBody::new(&header, *message_header, message_data, None);
+
+        // The SMBus byte count (transport header + message + PEC) is one byte
+        if body.len() + 5 > 255 {
+            return Err(());
+        }
 
         let packet = MCTPSMBusPacket::new(&mut smbus_header, &base_header, &body);
 
@@ -186,6 +196,11 @@ pub trait SMBusMCTPRequestResponse {
 
         let body = MCTPMessageBody::new(&header, *message_header, message_data, None);
 
+        // The SMBus byte count (transport header + message + PEC) is one byte
+        if body.len() + 5 > 255 {
+            return Err(());
+        }
+
         let packet = MCTPSMBusPacket::new(&mut smbus_header, &base_header, &body);
 
         Ok(packet.to_raw_bytes(buf))
@@ -206,6 +221,11 @@ pub trait SMBusMCTPRequestResponse {
             MCTPMessageBodyHeader::new(false, MessageType::VendorDefinedIANA);
 
         let body = MCTPMessageBody::new(&header, *message_header, message_data, None);
+
+        // The SMBus byte count (transport header + message + PEC) is one byte
+        if body.len() + 5 > 255 {
+            return Err(());
+        }
 
         let packet = MCTPSMBusPacket::new(&mut smbus_header, &base_header, &body);
 
